@@ -37,6 +37,7 @@ pub struct Dir {
     pub tags: Vec<String>,
     pub sig: String,
     pub loops: BTreeMap<usize, String>,
+    pub loop_iters: BTreeMap<usize, String>, // `//@loop N name`: Verus ghost-iterator name for a `for` loop (R26)
     pub ats: Vec<At>,
     pub entry: String,
     pub attrs: Vec<String>,
@@ -193,7 +194,11 @@ fn parse_template(t: &str) -> Vec<Result<String, Dir>> {
                 "sig" => sec = Sec::Sig,
                 "entry" => sec = Sec::Entry,
                 "loop" => {
-                    let n: usize = arg.parse().unwrap_or_else(|_| die("template", "loop N"));
+                    let mut parts = arg.split_whitespace();
+                    let n: usize = parts.next().unwrap_or("").parse().unwrap_or_else(|_| die("template", "loop N [ghost-iterator-name]"));
+                    if let Some(name) = parts.next() {
+                        d.loop_iters.insert(n, name.to_string());
+                    }
                     d.loops.insert(n, String::new());
                     sec = Sec::Loop(n);
                 }
@@ -847,6 +852,7 @@ fn process_assoc_const(src: &str, d: &Dir) -> StructOut {
 
 struct LoopFinder {
     braces: Vec<(usize, usize)>, // (loop start, body open brace)
+    for_exprs: Vec<(usize, usize)>, // (loop start, start of the iterator expression) for `for` loops
 }
 impl<'ast> Visit<'ast> for LoopFinder {
     fn visit_expr_while(&mut self, n: &'ast syn::ExprWhile) {
@@ -859,6 +865,7 @@ impl<'ast> Visit<'ast> for LoopFinder {
     }
     fn visit_expr_for_loop(&mut self, n: &'ast syn::ExprForLoop) {
         self.braces.push((br(n.for_token.span()).start, br(n.body.brace_token.span.open()).start));
+        self.for_exprs.push((br(n.for_token.span()).start, br(n.expr.span()).start));
         syn::visit::visit_expr_for_loop(self, n);
     }
 }
@@ -967,7 +974,7 @@ fn process_fn(src_with_attrs: &str, d: &Dir, loc: &Located) -> FnOut {
         if !entry.is_empty() {
             edits.push((open.end..open.end, entry));
         }
-        let mut lf = LoopFinder { braces: vec![] };
+        let mut lf = LoopFinder { braces: vec![], for_exprs: vec![] };
         lf.visit_impl_item_fn(&f);
         lf.braces.sort();
         for (k, t) in &d.loops {
@@ -976,6 +983,17 @@ fn process_fn(src_with_attrs: &str, d: &Dir, loc: &Located) -> FnOut {
             }
             let at = lf.braces[*k - 1].1;
             edits.push((at..at, format!("\n{}", t)));
+            // R26: `for P in IT` -> `for P in name: IT` (Verus' syntax for naming the ghost iterator of a for loop)
+            if let Some(name) = d.loop_iters.get(k) {
+                let start = lf.braces[*k - 1].0;
+                match lf.for_exprs.iter().find(|(s, _)| *s == start) {
+                    Some((_, e)) => {
+                        edits.push((*e..*e, format!("{}: ", name)));
+                        *rules.entry("R26".into()).or_insert(0) += 1;
+                    }
+                    None => die("anchor-lost", &format!("{}: loop {} is not a `for` loop, cannot name its iterator", d.item, k)),
+                }
+            }
         }
         for a in &d.ats {
             let mut pos = None;
